@@ -41,7 +41,7 @@ class SpecOracle(object):
         return out
 
 
-def e2_simple(oracle, IC, tmin, tmax, log, fails, counters, annot=None, states=None, nodes=None, partial=False):
+def e2_simple(oracle, IC, tmin, tmax, log, fails, counters, annot=None, states=None, nodes=None, partial=False, two_level=False):
     """returns list of tracked events (t, node, old, new, source or None)."""
     status = dict(IC)
     nodes = nodes or list(oracle.G)
@@ -61,6 +61,11 @@ def e2_simple(oracle, IC, tmin, tmax, log, fails, counters, annot=None, states=N
         en = oracle.enabled(status)
         rates = [oracle.rate[tr] * sum(c.values()) for (_, tr, c) in en]
         lam = sum(rates)
+        if two_level and lam < 1e-6 * maxrate[0]:
+            # workloads built with exactly one weight ~1e12 times all the others together: when it leaves, the library's list recomputes its
+            # running total (remainder < 1e-9 * removed weight), so the absolute slack owed to the earlier, huge total no longer applies
+            maxrate[0] = lam
+            bump('two_level_drops_seen')
         maxrate[0] = max(maxrate[0], lam)
         tol = 1e-9 * lam + 1e-12 * maxrate[0]
         e = cur.peek()
